@@ -109,21 +109,17 @@ def run(chk: Check) -> None:
         out: Set[Tuple[str, str]] = set()
         conds: Dict[Tuple[str, str], str] = {}
         guards: List[str] = []
+        flow = CFG(f.node)
         for n in walk_no_nested(f.node):
             if isinstance(n, ast.Subscript):
                 b = expand_path(n.value, al)
                 if b and len(b) == 2 and b[0] == me and b[1] in INDEXES:
                     k = unparse(n.slice).replace(p, "$")
                     out.add((b[1], k))
-                    cs = []
-                    cur = getattr(n, "_parent", None)
-                    prev: ast.AST = n
-                    while cur is not None and cur is not f.node:
-                        if isinstance(cur, ast.If) and prev in cur.body:
-                            cs.append(unparse(cur.test).replace(p, "$"))
-                        prev, cur = cur, getattr(cur, "_parent", None)
+                    # what is known to hold where the index is touched (guards in any spelling)
+                    cs = [c for c in flow.canonical_facts(n, {p: "$"}) if "isinstance" not in c]
                     prev_c = conds.get((b[1], k))
-                    cur_c = " & ".join(sorted(set(cs)))
+                    cur_c = " & ".join(cs)
                     if prev_c is None or len(cur_c) < len(prev_c):
                         conds[(b[1], k)] = cur_c
             if isinstance(n, ast.Call) and attr_path(n.func) == ("isinstance",) and len(n.args) == 2 \
@@ -152,15 +148,13 @@ def run(chk: Check) -> None:
                f.loc(), "%s must %s the symbol in each index bucket (found %d call(s))"
                % (f.qualname, meths[0], len(calls)), 2)
     dels = [n for n in walk_no_nested(dis.node) if isinstance(n, ast.Delete)]
-    ok = len(dels) >= 2 and all(isinstance(getattr(d, "_parent", None), ast.If) for d in dels)
+    ok = len(dels) >= 2
+    flow_d = CFG(dis.node)
     for d_ in dels:
-        par_ = getattr(d_, "_parent", None)
-        if isinstance(par_, ast.If):
-            t_ = par_.test
-            empty_when_true = (isinstance(t_, ast.UnaryOp) and isinstance(t_.op, ast.Not)
-                               and isinstance(t_.operand, ast.Name)) or (
-                isinstance(t_, ast.Compare) and "len(" in unparse(t_) and isinstance(t_.ops[0], ast.Eq))
-            ok = ok and empty_when_true and d_ in par_.body
+        # the bucket is known to be empty where it is deleted: '-truthy <bucket>' or '+Eq 0 len(..)'
+        facts_ = flow_d.canonical_facts(d_)
+        ok = ok and any((c.startswith("-truthy ") and "(" not in c) or
+                        (c.startswith("+Eq ") and "len(" in c and " 0" in c + " ") for c in facts_)
     chk.ob("R10.2", "Module._index_discard:drops-empty-buckets", ok, dis.loc(),
            "_index_discard must delete a bucket once it is empty (symbols_named / references "
            "would otherwise see stale empty buckets accumulate)", 1)
